@@ -708,7 +708,7 @@ __strfd_card(
 		if (yd >= 0) {
 			res = ui999topstr(
 				buf, bsz, yd,
-				3 - (s.pad == DT_SPPAD_OMIT) << 1U,
+				3 - ((s.pad == DT_SPPAD_OMIT) << 1U),
 				padchar(s));
 		} else {
 			buf[res++] = '0';
